@@ -23,6 +23,7 @@ var vStdTypes = []sighash.Flag{sighash.All, sighash.None, sighash.Single, sighas
 // vsignedTx: a transaction whose input idx spends a P2PKH output of key k and is signed through
 // the library's signing path with hash type ht.
 func vsignedTx(maxIn, maxOut int, inscription bool) (tx *bt.Tx, idx int, prev *bt.Output, ht sighash.Flag, forkid bool) {
+	vtrailerSep = false
 	kb := vnondetBytes("privkey", 32, 32)
 	vassume(kb[0] >= 1 && kb[0] <= 0x7f) // a valid secp256k1 scalar
 	priv, _ := bec.PrivKeyFromBytes(bec.S256(), kb)
@@ -35,6 +36,13 @@ func vsignedTx(maxIn, maxOut int, inscription bool) (tx *bt.Tx, idx int, prev *b
 		s = append(s, bscript.OpFALSE, 1)
 		s = append(s, vnondetBytes("idata", 1, 1)...)
 		s = append(s, bscript.OpENDIF)
+		if vparamAfterGenesis && vnondetBool("opreturn-trailer") {
+			// extra data behind a top-level OP_RETURN (what Inscribe appends for OpReturnData); part of the script code
+			s = append(s, bscript.OpRETURN)
+			tr := vnondetBytes("trailer", 0, 3)
+			vtrailerSep = len(tr) > 0 && tr[0] == bscript.OpCODESEPARATOR
+			s = append(s, tr...)
+		}
 		lock = &s
 	}
 	tx = &bt.Tx{Version: vnondetU32("version"), LockTime: vnondetU32("locktime")}
@@ -75,6 +83,7 @@ func vverify(tx *bt.Tx, idx int, prev *bt.Output, forkid bool) error {
 }
 
 var vparamAfterGenesis bool
+var vtrailerSep bool
 
 // C04-A: every input signed through the library is accepted by the interpreter.
 func VH_C04_Accept() {
@@ -82,7 +91,13 @@ func VH_C04_Accept() {
 	tx, idx, prev, _, forkid := vsignedTx(vparam("IN", 2), vparam("OUT", 2), vparam("INSC", 0) == 1)
 	before := tx.Bytes()
 	err := vverify(tx, idx, prev, forkid)
-	vassert(err == nil, "C04: library-made signature verifies")
+	if vtrailerSep && !forkid {
+		// its own label: the parser keeps the bytes behind a top-level OP_RETURN as one blob named after
+		// their first byte, and the legacy script code drops every OP_CODESEPARATOR "opcode"
+		vassert(err == nil, "C04: library-made legacy signature verifies (OP_RETURN trailer starting with byte ab)")
+	} else {
+		vassert(err == nil, "C04: library-made signature verifies")
+	}
 	vassert(vbytesEq(tx.Bytes(), before), "C08: verification leaves the transaction serialisation unchanged")
 	if forkid {
 		vreach("c04-accept-forkid")
